@@ -113,8 +113,9 @@ def strLit? : E → Option String
   | lit (.str s) => some s
   | _ => none
 
-/-- the first token written for `e` is the `!` of `!<number or string literal>`.  Directly after `<` or `<<` the Go
-    printer takes the `<!--` branch (`isLtNot`) and skips the `!5 → !1` rewrite; that context is outside the model -/
+/-- the first token written for `e` may be the `!` of `!<number or string literal>`.  Directly after `<` or `<<` the Go
+    printer takes the `<!--` branch (`isLtNot`) and skips the `!5 → !1` rewrite; that context is outside the model.
+    A conditional may be folded to one of its parts (`(1000?!12000:a)` is printed as `!12e3` there): any part counts -/
 def startsNotLit : E → Bool
   | unary .not (lit (.num _)) => true
   | unary .not (lit (.str _)) => true
@@ -124,6 +125,8 @@ def startsNotLit : E → Bool
   | dot x _ => startsNotLit x
   | index x _ => startsNotLit x
   | group x => startsNotLit x
+  | .cond c x y => startsNotLit c || startsNotLit x || startsNotLit y
+  | opt _ e => startsNotLit e
   | _ => false
 
 /-- the literal cases of `!x`: `!"" → !0`, `!"s" → !1`, `!5 → !1` -/
